@@ -24,6 +24,8 @@ def main(tier, replay):
             # string accumulators fork per comparison: few values, one of them up to 10 bytes (the sentinel has 9)
             for at in (0, 1, 2):
                 J('str-3f-long%d' % at, n, [0, 3, 1, 1, 1, at, 9, 0, 0, 0])
+            # values longer than 64 bytes (a truncated max would no longer bound them)
+            J('str-2f-long70', n, [0, 2, 1, 1, 1, 1, 70, 0, 0, 0])
             J('str-1n1f', n, [1, 1, -1, 1, 1, 0, 2, 1, 0, 0])
             if not quick:
                 J('str-2n', n, [2, 0, 0, 1, 2, 0, 9, 0, 0, 0])
@@ -41,7 +43,7 @@ def main(tier, replay):
     J('sens-bound', 'flat_int32', [0, 2, 1, 1, 1, 9, 1, 0, 0, 2], expect='min <= v <= max')
     run_program_jobs(c, mod, infos, jobs, native_templates=NATIVE, record=6 if not quick else 0)
     c.programs = len(P)
-    c.bounds = {'values per page and column': '<= 4 (quick) / 6 (thorough)', 'types': progs.PRIMS, 'strings': '<= 2 bytes, one value per run up to 10 bytes',
+    c.bounds = {'values per page and column': '<= 4 (quick) / 6 (thorough)', 'types': progs.PRIMS, 'strings': '<= 2 bytes, one value per run up to 10 bytes; one job with 70-byte values',
                 'page size': 'symbolic >= 1 (statistics are per page)', 'outside': 'pages with more values; strings longer than 10 bytes; distinct_count (never written)'}
     c.assumptions = [STUB_ASSUMPTIONS[k] for k in ('A1', 'A3', 'A4', 'A5', 'A6')] + ['float order: IEEE comparisons encoded over bit patterns, lemma proved each run against the FloatingPoint theory']
     c.finish('paths enumerate record structure (nil/non-nil, list lengths) and page-size outcomes; all column values are symbolic (ints as bit-vectors, floats as IEEE bit patterns incl. every NaN payload, +-0, +-Inf, strings as bytes); a path is non-trivial when at least one obligation went to the solver',
